@@ -524,6 +524,17 @@ def handleSt (d : Drv) (line : String) : Drv × String :=
     match t.toNat? with
     | some t => ({ d with now := t }, "ok")
     | none => (d, "bad-op")
+  | "ordered" :: toks =>
+    -- VncProofs/C08Sys.lean's checker `scriptOrdered` (re-stated in VncSpec/Order.lean) on a history observed on the implementation
+    let acts : Option (List Act) := toks.mapM fun t =>
+      if t == "w" then some (Act.write []) else if t == "v" then some (Act.save [] 0 0 []) else if t == "x" then some (Act.chainFailed "")
+      else if t == "c" then some Act.close
+      else if t.startsWith "s" then (t.drop 1).toNat?.map Act.start
+      else if t.startsWith "f" then (t.drop 1).toNat?.map Act.finish
+      else none
+    match acts with
+    | some l => (d, if scriptOrdered none 0 l then "ok true" else "ok false")
+    | none => (d, "bad-op")
   | ["px-recv", h] => doPxRecv d h
   | ["fv-new", pw] =>
     match parseBool? pw with
